@@ -19,7 +19,7 @@ TYPES = {
     'CommaOpt': ('CommaList', 'comma'),
     'RouterOpt': ('RouterList', 'comma'),
     'LineOpt': ('LineList', 'lines'),
-    'SocksPort': ('LineList', 'lines'),
+    'SocksPort': ('Dependent', 'lines'),        # with 'SocksPortLines Virtual' and '__SocksPort Dependent', as Tor's VPORT() declares
 }
 
 
@@ -64,8 +64,10 @@ class CfgImpl(object):
             sim.conf[name] = list(vals)
             sim.conf_types[name] = t
             if name == 'SocksPort':
-                names.append('SocksPortLines Dependent')
+                names.append('SocksPortLines Virtual')
+                names.append('__SocksPort Dependent')
                 sim.conf['__SocksPort'] = []
+                sim.conf_types['__SocksPort'] = 'Dependent'
         sim.info['config/names'] = sorted(names)
         if with_defaults_key:
             dl = []
